@@ -15,6 +15,9 @@
                                       before base/max are normalised (base 10 s, max 2 s waits 10, 10, 10 s)
    "zero-range-jitter"                uniform jitter draws from the empty range 0..0 when the period is 0 (panic)
    "unchecked-doubling"               period * 2 overflows Duration for periods above half of Duration::MAX (panic)
+ and one that a seeded change introduced (kept as a switch so that the model can show it):
+   "stale-success-time"               successful_connect_time is not cleared when a connection ends, so a later attempt
+                                      that gets a transport but no successful CONNACK is measured against the old time
  ***************************************************************************************************)
 EXTENDS Naturals, Integers, Sequences, FiniteSets, TLC, Json
 
@@ -90,13 +93,25 @@ AttemptSucceeds ==
     /\ UNCHANGED <<cfg, opt, next, now, wakeAt, hist>>
 
 \* transition_to_state(Connected -> PendingReconnect): the reset rule, then the wait
+ResetRule(t) == IF succT # -1 /\ (t - succT) > opt.stableUs THEN opt.baseUs ELSE next
+Cleared == IF "stale-success-time" \in Defects THEN succT ELSE -1
+
 ConnectionLost ==
     /\ phase = "up"
     /\ \E life \in Lifetimes :
           LET t == now + life
-              period == IF (t - succT) > opt.stableUs THEN opt.baseUs ELSE next
-          IN /\ now' = t /\ succT' = -1
-             /\ EnterPendingReconnect(period, ClientEv("Disconnection", t), t, [a |-> "Ok", lifeUs |-> life])
+          IN /\ now' = t /\ succT' = Cleared
+             /\ EnterPendingReconnect(ResetRule(t), ClientEv("Disconnection", t), t, [a |-> "Ok", lifeUs |-> life])
+    /\ UNCHANGED <<cfg, opt>>
+
+\* the transport connects (the client is in its Connected state) but the handshake fails after some time: a failing
+\* CONNACK, or the connection ends before any CONNACK.  No success was recorded, so the reset rule must not fire.
+AttemptRejected ==
+    /\ phase = "attempting" /\ Len(hist) < MaxHist
+    /\ \E delay \in Lifetimes, how \in {"Reject", "Eof"} :
+          LET t == now + delay
+          IN /\ now' = t /\ succT' = Cleared
+             /\ EnterPendingReconnect(ResetRule(t), ClientEv("Failure", t), t, [a |-> how, lifeUs |-> delay])
     /\ UNCHANGED <<cfg, opt>>
 
 WaitOver ==
@@ -105,7 +120,7 @@ WaitOver ==
     /\ mon' = C19!Apply(mon, ClientEv("Attempt", wakeAt))
     /\ UNCHANGED <<cfg, opt, next, succT, hist>>
 
-Next == AttemptFails \/ AttemptSucceeds \/ ConnectionLost \/ WaitOver
+Next == AttemptFails \/ AttemptRejected \/ AttemptSucceeds \/ ConnectionLost \/ WaitOver
 Spec == Init /\ [][Next]_vars
 
 ----------------------------------------------------------------------------------------------------
